@@ -1,5 +1,5 @@
 """C04 — parsing untrusted bytes never panics, aborts or hangs."""
-import json, os, collections, hashlib, random
+import json, os, collections, hashlib, random, re
 from concurrent.futures import ThreadPoolExecutor
 import vlib
 from vlib import Check, tlc, run_bin, workdir, write_ndjson, read_ndjson, log
@@ -71,6 +71,9 @@ def w_zero(d):
         if bytes(k) == b"W" and v.get("k") == "arr" and len(v["v"]) >= 3:
             return all(is_int(x) and not x.get("neg") and x["v"] == [0] for x in v["v"][:3])
     return False
+
+
+W000 = re.compile(rb"/W\s*\[\s*0+\s+0+\s+0+\s*\]")
 
 
 def count_huge(d):
@@ -193,7 +196,8 @@ def run(tier):
     for ri, r in enumerate(records):
         src = "tlc:producer" if r["_mode"] == "producer" else "tlc:seed:" + r["tag"]
         base = {"src": src, "muts": r["muts"], "trivial": r["round"] == 0, "rdok": r["rdok"], "neutral": r["neutral"], "rec": ri,
-                "wzero": w_zero(r["dict"]) and count_huge(r["dict"]), "nest": []}
+                "wzero": (w_zero(r["dict"]) and count_huge(r["dict"])) or (r["ep"] == "file" and bool(W000.search(bytes(r["bytes"])))),
+                "nest": []}
         eps = ["load", "incload"] if r["ep"] == "file" else [r["ep"]]
         for ep in eps:
             add(ep, r["bytes"], r["dict"], dict(base, dig=(r["ep"] == "file")))
@@ -278,7 +282,8 @@ def run(tier):
             for bc in read_ndjson(bpath):
                 bulk_meta[bc["id"]] = bc
         bc = bulk_meta[i]
-        return {"src": bc["src"], "muts": bc["muts"], "group": "file", "n": bc["len"], "nest": [], "wzero": False, "trivial": False}, bc
+        return {"src": bc["src"], "muts": bc["muts"], "group": "file", "n": bc["len"], "nest": [],
+                "wzero": bool(W000.search(bytes.fromhex(bc["hex"]))), "trivial": False}, bc
 
     executed = 0
     kinds = collections.Counter()
@@ -302,7 +307,7 @@ def run(tier):
     for i in jidx:
         m, c = meta_of(i)
         o = outs[i]
-        need_bytes = m["group"] == "file" and int(o.get("refused") or 0) > 0 and c.get("dict") in ([], None)
+        need_bytes = m["group"] == "file" and (int(o.get("refused") or 0) > 0 or int(o.get("peak") or 0) >= 32 * MIB) and c.get("dict") in ([], None)
         judged.append({"id": i, "group": m["group"], "ep": c["ep"], "kind": o["kind"],
                        "loc": (o.get("loc") or "").rsplit(":", 1)[0], "mcl": o.get("mcl") or "",
                        "refused": digits(o.get("refused")), "peak": digits(o.get("peak")), "len": m["n"], "dict": c.get("dict") or [],
